@@ -41,6 +41,14 @@ def _child(world_name, seed, params, replay, wfd, want_tapes):
         # cpppo's half-parsed generators complain when they are garbage collected after a fault
         # ("Exception ignored in: <generator ...>"); that is stderr noise, not an outcome
         sys.unraisablehook = lambda *a: None
+        # The cyclic collector runs finalizers (a discarded client's socket close, a half-run
+        # generator's `finally`) whenever allocation counters say so -- and those counters are
+        # inherited from the forking parent.  In a run the collector is therefore off; the scheduler
+        # collects at points it chooses (Sched._gc), and everything inherited is frozen.
+        import gc
+        if not os.environ.get('VERIF_GC_LEGACY'):       # (legacy: only to show that selftest notices)
+            gc.disable()
+            gc.freeze()
         tapes = Tapes(seed, replay)
         random.seed(mix(seed, 'sut'))
         fn = REGISTRY[world_name]
